@@ -305,7 +305,9 @@ def rule_r5(ctx: Ctx) -> None:
     NODE = TypeV("class", "N")
     n = 0
     for label, options in (("the donor offers same-typed subtrees", [Sym("donor-subtree")]), ("the donor offers no same-typed subtree", None),
-                           ("the donor offers an empty list of subtrees", [])):
+                           ("the donor offers an empty list of subtrees", []),
+                           # the other parent as a whole is parental material too (a donor whose root is its only node of the wanted type)
+                           ("the donor's root is its only same-typed subtree", [Sym("donor")])):
         def extra_find(it, call, env, args, kwargs, options=options):
             from ..modelinterp import _NONE
             return _NONE if options is None else list(options)
